@@ -13,9 +13,12 @@ enum K {
     OptWrite,
     Unit,
     Phantom,
+    /// Read / Write with a user-supplied setup handler that counts its calls
+    ReadCustom,
+    WriteCustom,
 }
 
-const ALL: [K; 8] = [K::Read, K::Write, K::ReadExpect, K::WriteExpect, K::OptRead, K::OptWrite, K::Unit, K::Phantom];
+const ALL: [K; 10] = [K::Read, K::Write, K::ReadExpect, K::WriteExpect, K::OptRead, K::OptWrite, K::Unit, K::Phantom, K::ReadCustom, K::WriteCustom];
 
 #[derive(Clone, Debug)]
 enum T {
@@ -30,6 +33,7 @@ struct Exp {
     opt: Vec<usize>,
     dflt: Vec<usize>,
     need: Vec<usize>,
+    custom: Vec<usize>,
 }
 
 fn ty(t: &T, out: &mut String, e: &mut Exp) {
@@ -68,6 +72,20 @@ fn ty(t: &T, out: &mut String, e: &mut Exp) {
                     e.writes.push(*n);
                     e.opt.push(*n);
                 }
+                K::ReadCustom => {
+                    write!(out, "Read<'a, R<{}>, Counting<{}>>", n, n).unwrap();
+                    e.reads.push(*n);
+                    e.dflt.push(*n);
+                    e.need.push(*n);
+                    e.custom.push(*n);
+                }
+                K::WriteCustom => {
+                    write!(out, "Write<'a, R<{}>, Counting<{}>>", n, n).unwrap();
+                    e.writes.push(*n);
+                    e.dflt.push(*n);
+                    e.need.push(*n);
+                    e.custom.push(*n);
+                }
                 K::Unit => out.push_str("()"),
                 K::Phantom => write!(out, "PhantomData<R<{}>>", n).unwrap(),
             }
@@ -100,7 +118,7 @@ impl Gen {
         writeln!(self.code, "{}pub struct F{};\nimpl Fam for F{} {{ type D<'a> = {}; }}", prelude, id, id, type_expr).unwrap();
         writeln!(
             self.table,
-            "    Case {{ group: {:?}, name: {:?}, reads: {}, writes: {}, opt: {}, dflt: {}, need: {}, nres: {}, run: run::<F{}> }},",
+            "    Case {{ group: {:?}, name: {:?}, reads: {}, writes: {}, opt: {}, dflt: {}, need: {}, custom: {}, nres: {}, run: run::<F{}> }},",
             group,
             type_expr,
             arr(&e.reads),
@@ -108,6 +126,7 @@ impl Gen {
             arr(&e.opt),
             arr(&e.dflt),
             arr(&e.need),
+            arr(&e.custom),
             nres,
             id
         )
@@ -187,7 +206,7 @@ fn main() {
 }
 
 fn generate(full: bool) -> String {
-    let quick_kinds = [K::Write, K::OptRead, K::Unit];
+    let quick_kinds = [K::Write, K::OptRead, K::Unit, K::ReadCustom];
     let mut g = Gen { code: String::new(), table: String::new(), n: 0 };
     // (i) every arity 1..26 x every position x every kind; fillers alternate Read / Write on distinct resources
     for arity in 1..=26usize {
